@@ -13,5 +13,23 @@ theorem datagram_closes_before_period_elapsed :
       ¬ (t > s.last + cfg.period) :=
   ⟨⟨100000000, none⟩, init 0, 95000000, by decide⟩
 
+/-!
+Observation O4 (keep-alive timing; NOT a violation of C18 as worded, recorded so that nobody reads more into the
+theorems than they say): `KeepAlive.OnInactive` does not refresh `lastActivity`, so after the idle period has elapsed
+every further housekeeping tick is an idle firing.  Pings are therefore spaced by the housekeeping interval (default
+runner: 4 s; any configured `PeriodicRunner`), not by the monitor period, and the connection is closed
+`maxRetries + 1` ticks after the period elapsed — e.g. `WithKeepAlive(2, 60 s)` (period 20 s) with the default 4 s runner
+closes a silent peer after about 32 s, each ping having had 4 s.  With period 100, two retries and ticks 1 ns apart: -/
+theorem keepalive_firings_need_no_time_between_them :
+    (run ⟨100, some 2⟩ (init 0) [.tick 101, .tick 102, .tick 103]).2
+      = [.ping 1, .cancelPing 1, .ping 2, .cancelPing 2, .close] := by decide
+
+/-- and when nothing can be sent the connection is closed without a single ping having left -/
+theorem keepalive_closes_without_a_ping_sent :
+    (run ⟨100, some 2⟩ (init 0) [.tickFail 101, .tickFail 102, .tick 103]).2 = [.pingFailed 1, .pingFailed 2, .close] := by
+  decide
+
 end CoapVerif.Findings.C18
 #print axioms CoapVerif.Findings.C18.datagram_closes_before_period_elapsed
+#print axioms CoapVerif.Findings.C18.keepalive_firings_need_no_time_between_them
+#print axioms CoapVerif.Findings.C18.keepalive_closes_without_a_ping_sent
